@@ -64,7 +64,11 @@ def lengths_for(c):
 
 
 WRITE_PATHS = ["writebytes", "upload", "writefile", "appendbytes", "piecewise", "copy", "move", "copy_file",
-               "append_seek", "append_plus_lines", "truncate_rewrite"]
+               "append_seek", "append_plus_lines", "truncate_rewrite"] + \
+    ["pieces_tell", "pieces_text_seek_tell", "pieces_truncate"]
+# the last three: the data in TWO pieces (each larger than fs.constants.DEFAULT_CHUNK_SIZE when the data is more than twice
+# that) with a position query / relative seek / text-layer seek(tell()) / argument-less truncate() BETWEEN the pieces
+BIG_PIECE_PATHS = ["pieces_tell", "pieces_text_seek_tell", "pieces_truncate"]
 READ_PATHS = ["readbytes", "download", "read", "readinto", "readline", "iterate", "hash", "getsize"]
 
 
@@ -111,6 +115,27 @@ def write_path(fsx, how, path, data, chunk):
             f.seek(k)
             f.truncate(half)        # size half, position still k
             f.write(data[k:])
+    elif how == "pieces_tell":
+        half = len(data) // 2
+        with fs.openbin(path, "w") as f:
+            f.write(data[:half])
+            if f.tell() != half:
+                raise AssertionError("tell() after writing %d bytes is %d" % (half, f.tell()))
+            f.seek(0, 1)
+            f.write(data[half:])
+    elif how == "pieces_text_seek_tell":
+        half = len(data) // 2
+        with fs.open(path, "w", encoding="latin-1", newline="") as f:
+            f.write(data[:half].decode("latin-1"))
+            f.seek(f.tell())
+            f.write(data[half:].decode("latin-1"))
+    elif how == "pieces_truncate":
+        half = len(data) // 2
+        with fs.openbin(path, "w") as f:
+            f.write(data[:half])
+            f.seek(0, 1)
+            f.truncate()            # at the position: nothing is cut
+            f.write(data[half:])
     elif how == "copy":
         fs.writebytes(path + ".src", data)
         fs.copy(path + ".src", path, overwrite=True)
@@ -193,7 +218,7 @@ PENDING_FINDINGS = []      # the signatures above are registered in known_findin
 
 def ftp_lengths(thorough):
     from fs.constants import DEFAULT_CHUNK_SIZE
-    ls = [0, 1, 4097, 8193, DEFAULT_CHUNK_SIZE + 5]
+    ls = [0, 1, 4097, 8193, DEFAULT_CHUNK_SIZE + 5, 2 * DEFAULT_CHUNK_SIZE + 11]     # the last: two pieces > chunk size
     if thorough:
         ls += [8191, 8192, 3 * 8192 + 1, DEFAULT_CHUNK_SIZE - 1, DEFAULT_CHUNK_SIZE, 3 * DEFAULT_CHUNK_SIZE + 1]
     return sorted(ls)
@@ -549,6 +574,8 @@ def run(report):
                 pairs = list(itertools.product(WRITE_PATHS, READ_PATHS))
                 if len(data) > 100000 or not thorough:
                     pairs = rnd.sample(pairs, 6 if len(data) > 100000 else 14)
+                if len(data) > 300000:      # pieces larger than the chunk size: always, on every backend
+                    pairs += [(wp, rnd.choice(READ_PATHS)) for wp in BIG_PIECE_PATHS if wp not in [x[0] for x in pairs]]
                 for wp, rp in pairs:
                     total += 1
                     p = "f%d" % ci
